@@ -116,7 +116,11 @@ func parseNot(not *y.Yaml, variable Variable, varGenerator *VarGenerator) (Rule,
 
 func parseAnd(and *y.Yaml, variable Variable, varGenerator *VarGenerator) (Rule, error) {
 	var values []Rule
-	size, _ := and.GetArraySize()
+	size, err := and.GetArraySize()
+	if err != nil || size == 0 {
+		l, c := and.Pos()
+		return nil, errors.New(fmt.Sprintf("and constraint needs a list with at least one element at [%d,%d]", l, c))
+	}
 	for i := 0; i < size; i++ {
 		n := and.GetIndex(i)
 		if !n.IsMap() {
@@ -152,7 +156,11 @@ func parseConditional(ifContent *y.Yaml, thenContent *y.Yaml, optElseContent *y.
 
 func parseOr(or *y.Yaml, variable Variable, varGenerator *VarGenerator) (Rule, error) {
 	var values []Rule
-	size, _ := or.GetArraySize()
+	size, err := or.GetArraySize()
+	if err != nil || size == 0 {
+		l, c := or.Pos()
+		return nil, errors.New(fmt.Sprintf("or constraint needs a list with at least one element at [%d,%d]", l, c))
+	}
 	for i := 0; i < size; i++ {
 		n := or.GetIndex(i)
 		if !n.IsMap() {
@@ -186,6 +194,10 @@ func parseImplicitAnd(data *y.Yaml, variable Variable, varGenerator *VarGenerato
 			return nil, err
 		}
 		values = append(values, cs...)
+	}
+	if len(values) == 0 {
+		l, c := data.Pos()
+		return nil, errors.New(fmt.Sprintf("propertyConstraints needs at least one constraint at [%d,%d]", l, c))
 	}
 
 	return NewAnd(false, values), nil
